@@ -32,6 +32,7 @@ type Env struct {
 	qdepth  int
 	qfacts  *[]string
 	assume  bool // the clause is being evaluated to be assumed (not proved)
+	li      *loopInfo // loop whose invariant is being evaluated (for visited())
 }
 
 type specError struct{ msg string }
@@ -794,6 +795,43 @@ func (e *Env) callExpr(n *ast.CallExpr) Val {
 		mi := e.u.mapInfo(m.T)
 		dom := e.arr(mi.domSite, SArr(mi.kSort, SBool))
 		return boolVal(and(not(eq(m.S[0], "0")), sel(sel(dom, m.S[0]), k.S[0])))
+	case "instant":
+		// instant(t): the monotonic instant (nanoseconds, int64) of a time.Time value
+		argc(1)
+		v := e.eval(n.Args[0])
+		if !isTimeType(v.T) {
+			specErrf("instant: not a time.Time")
+		}
+		return Val{T: types.Typ[types.Int64], S: []string{v.S[timeInstantIdx(v.T)]}}
+	case "clock":
+		// clock(): the instant returned by the most recent time.Now() (ghost state, monotone)
+		argc(0)
+		c := sel(e.arr("ghost.clock", SBV(64)), "0")
+		if e.specSites == nil {
+			e.u.ctx.assert("lib:time.Now", and(app("bvsle", bvLitU(0, 64), c), app("bvsle", c, bvLitU(1<<62, 64))))
+		}
+		return Val{T: types.Typ[types.Int64], S: []string{c}}
+	case "visited":
+		// visited(k): inside an invariant of a range-over-map loop: key k has already been produced by the iteration
+		argc(1)
+		if e.li == nil || e.f == nil {
+			specErrf("visited() is only available in invariants of range-over-map loops")
+		}
+		var info *iterInfo
+		for _, ins := range e.li.header.Instrs {
+			if nx, ok := ins.(*ssa.Next); ok {
+				if r, ok := nx.Iter.(*ssa.Range); ok && iterOf[r] != nil {
+					info = iterOf[r][e.f]
+				}
+			}
+		}
+		if info == nil {
+			specErrf("visited(): the loop does not range over a map")
+		}
+		mi := e.u.mapInfo(info.mapT)
+		mt := info.mapT.Underlying().(*types.Map)
+		k := coerce(e.eval(n.Args[0]), mt.Key())
+		return boolVal(sel(sel(e.arr("iter."+mi.key, SArr(mi.kSort, SBool)), info.addr), k.S[0]))
 	case "framed":
 		// framed(): every heap cell that existed at function entry and lies outside the function's modifies set still holds
 		// its entry value (an intermediate form of the frame obligation, useful as a stepping stone in long functions)
@@ -1450,4 +1488,9 @@ func spanEnd(v Val) string {
 		stride = int64(elemStride(sl.Elem()))
 	}
 	return add(v.S[0], mul(v.S[2], intLit(stride)))
+}
+
+func isTimeType(t types.Type) bool {
+	n, ok := types.Unalias(t).(*types.Named)
+	return ok && n.Obj().Pkg() != nil && n.Obj().Pkg().Path() == "time" && n.Obj().Name() == "Time"
 }
